@@ -96,3 +96,10 @@ Theorem C19_streaming_save_damages :
     lookup w dest = Some b /\ lookup w' dest <> Some b.
 Proof. exact streaming_save_damages. Qed.
 Print Assumptions C19_streaming_save_damages.
+
+(* histories: several saves of one configuration object with external changes in between.  A file keeps
+   its bytes unless someone else changed it or a save that returned had it as destination. *)
+Theorem C19_history_preserves : forall home steps w q b,
+  lookup w q = Some b -> untouched home w steps q -> lookup (run_steps home w steps) q = Some b.
+Proof. exact history_preserves. Qed.
+Print Assumptions C19_history_preserves.
